@@ -224,7 +224,7 @@ fn classify_death(status: &std::process::ExitStatus, stderr: &str) -> (String, S
             .and_then(|r| r.split(' ').next())
             .and_then(|n| n.parse().ok())
             .unwrap_or(u64::MAX);
-        if n >= 6 << 30 {
+        if n >= 16 << 30 {
             "crash:alloc_failed".to_string()
         } else {
             "hang".to_string()
